@@ -9,14 +9,28 @@ Open Scope Z_scope.
 Lemma bind_ext {A B} (m : M A) (f g : A -> M B) : (forall x, f x = g x) -> bind m f = bind m g.
 Proof. intros H. destruct m; cbn [bind]; [apply H|reflexivity]. Qed.
 
-(* one step: reduce binds of values, align identical monadic calls, split on a variable or a condition *)
+(* one step: reduce binds of values, align identical monadic calls, split on the test at the HEAD of either side
+   (inner tests are reached after the outer ones are decided: splitting them first would multiply the cases),
+   pruning the combinations the hypotheses contradict *)
+Ltac meq_split c := destruct c eqn:?; try solve [exfalso; lia].
 Ltac meq_step :=
   first
   [ reflexivity
   | progress cbn [bind]
   | progress cbv zeta
+  | progress autounfold with gen_new
   | match goal with
     | |- bind ?m _ = bind ?m _ => apply bind_ext; intro
+    end
+  | match goal with
+    | |- (if ?c then _ else _) = _ => meq_split c
+    | |- _ = (if ?c then _ else _) => meq_split c
+    | |- bind (if ?c then _ else _) _ = _ => meq_split c
+    | |- _ = bind (if ?c then _ else _) _ => meq_split c
+    | |- (match ?c with _ => _ end) = _ => meq_split c
+    | |- _ = (match ?c with _ => _ end) => meq_split c
+    | |- bind (match ?c with _ => _ end) _ = _ => meq_split c
+    | |- _ = bind (match ?c with _ => _ end) _ => meq_split c
     end
   | match goal with
     | |- context[match ?x with _ => _ end] => is_var x; destruct x
@@ -26,7 +40,7 @@ Ltac meq_step :=
       lazymatch c with
       | context[if _ then _ else _] => fail
       | context[match _ with _ => _ end] => fail
-      | _ => destruct c eqn:?
+      | _ => meq_split c
       end
     end
   | match goal with
@@ -47,3 +61,14 @@ Ltac cmp_simpl :=
   | |- context[?a =? ?b] => first [replace (a =? b) with true by lia | replace (a =? b) with false by lia]
   | |- context[?a <=? ?b] => first [replace (a <=? b) with true by lia | replace (a <=? b) with false by lia]
   end.
+
+(* equality of two results: strip the constructors they share (not the arithmetic), then arithmetic *)
+Ltac ctor_eq :=
+  repeat match goal with
+  | |- Ret _ = Ret _ => f_equal
+  | |- Ok _ = Ok _ => f_equal
+  | |- Err _ = Err _ => f_equal
+  | |- Some _ = Some _ => f_equal
+  | |- (_, _) = (_, _) => f_equal
+  end.
+Ltac leaf_eq := ctor_eq; first [ reflexivity | lia | range ].
